@@ -505,14 +505,15 @@ func expandGlob(root, pattern string) ([]string, error) {
 	return matches, nil
 }
 
-// withoutDotSegments drops the '.' segments of a glob pattern ('./src/*.go', 'src/./*.go'): they name
-// the directory they stand in, but the paths of an fs.FS never contain them, so a pattern written
-// that way would silently match nothing below the first directory.
+// withoutDotSegments drops the '.' segments of a glob pattern ('./src/*.go', 'src/./*.go') and the empty
+// ones a doubled separator leaves ('src//*.go'): they name the directory they stand in, but the paths of
+// an fs.FS never contain them, so a pattern written that way would silently match nothing below the
+// first directory. (A leading or trailing separator is kept as it is.)
 func withoutDotSegments(pattern string) string {
 	segments := strings.Split(pattern, "/")
 	kept := make([]string, 0, len(segments))
-	for _, segment := range segments {
-		if segment != "." {
+	for i, segment := range segments {
+		if segment != "." && (segment != "" || i == 0 || i == len(segments)-1) {
 			kept = append(kept, segment)
 		}
 	}
